@@ -945,6 +945,10 @@ class ndarray(_OpsMixin):
         return ndarray(_Store([_cast(c, self.dtype, dt) for c in self._cells()]), list(range(self.size)), self.shape, dt)
 
     def view(self, dt=None):
+        if isinstance(dt, type) and issubclass(dt, ndarray) and dt is not ndarray:
+            obj = dt.__new__(dt)          # a view typed as a subclass of ndarray (same cells)
+            ndarray.__init__(obj, self._store, self._pos, self.shape, self.dtype, self._contig)
+            return obj
         if dt is None or (isinstance(dt, type) and issubclass(dt, ndarray)):
             return ndarray(self._store, self._pos, self.shape, self.dtype, self._contig)
         dt = dtype(dt)
